@@ -1565,7 +1565,7 @@ func TestVerifProbe_F36(t *testing.T) {
 type c13FirstOp struct {
 	K    string `json:"k"` // assert | fail | restart
 	NS   string `json:"ns,omitempty"`
-	Via  string `json:"via,omitempty"` // manager | curie
+	Via  string `json:"via,omitempty"` // manager | curie | ctxstore
 	Seen string `json:"-"`
 }
 
@@ -1619,7 +1619,7 @@ func TestVerif_C13_firstns(t *testing.T) {
 		steps := 0
 		t.Repeat(map[string]func(*rapid.T){
 			"assert": func(t *rapid.T) {
-				op := c13FirstOp{K: "assert", NS: rapid.SampledFrom(pool).Draw(t, "ns"), Via: rapid.SampledFrom([]string{"manager", "curie"}).Draw(t, "via")}
+				op := c13FirstOp{K: "assert", NS: rapid.SampledFrom(pool).Draw(t, "ns"), Via: rapid.SampledFrom([]string{"manager", "curie", "ctxstore"}).Draw(t, "via")}
 				if rapid.IntRange(0, 2).Draw(t, "refused") == 0 {
 					op.K = "fail"
 				}
@@ -1642,6 +1642,8 @@ func TestVerif_C13_firstns(t *testing.T) {
 				var err error
 				if op.Via == "manager" {
 					p, err = s.NamespaceManager.AssertPrefixMappingForExpansion(op.NS)
+				} else if op.Via == "ctxstore" {
+					p, err = server.NewContextualStore(s).NamespaceManager.AssertPrefixMappingForExpansion(op.NS)
 				} else {
 					var c string
 					c, err = s.GetNamespacedIdentifier(op.NS+"x", nil)
